@@ -1602,3 +1602,42 @@ func ElementLoopRule(w *World, b *Backend, r *Result, rule string) {
 		r.Triv(rule, "elemloop:"+b.Role+":none", "-", "no emitting loop over a handed list in this back end")
 	}
 }
+
+// EmitCondRule: whether a line is emitted never depends on the TEXT of a value the method
+// was handed (its first character, whether it contains a blank …). The text of an expression
+// says nothing about what it evaluates to at run time: a loop exit test skipped because the
+// condition "is a literal", an assignment skipped because "the text did not change", leave the
+// script without the line in exactly the cases the shortcut did not think of. (Choices of
+// quoting inside a line are judged by the quoting rules, not here.)
+func EmitCondRule(w *World, b *Backend, r *Result, rule string) {
+	var names []string
+	for n := range b.X.Methods {
+		names = append(names, n)
+	}
+	sort.Strings(names)
+	n := 0
+	for _, name := range names {
+		mf := b.X.Methods[name]
+		seen := map[string]bool{}
+		for _, em := range mf.Emissions {
+			n++
+			for _, c := range em.Conds {
+				if !strings.Contains(c, "data:") {
+					continue
+				}
+				key := fmt.Sprintf("emitcond:%s:%s:%s", b.Role, name, strings.SplitN(strings.TrimPrefix(strings.TrimPrefix(c, "!("), "data:"), ":", 2)[0])
+				if seen[key] {
+					continue
+				}
+				seen[key] = true
+				r.Bad(rule, key, w.Pos(em.Pos), fmt.Sprintf("%s emits the line %s only under a condition on the text of a value (%s): for the other texts the line is missing from the script", name, em.T, c))
+			}
+		}
+		if len(seen) == 0 && len(mf.Emissions) > 0 {
+			r.Ok(rule, fmt.Sprintf("emitcond:%s:%s", b.Role, name), w.Pos(mf.Fn.Pos()), fmt.Sprintf("%d line(s): none is emitted under a condition on the text of a value", len(mf.Emissions)))
+		}
+	}
+	if n == 0 {
+		r.Bad(rule, "emitcond:"+b.Role+":none", "-", "no emission found in this back end")
+	}
+}
